@@ -116,9 +116,11 @@ class S3Compatible(Backend, short_name='S3C'):
         self.key_id = key_id
         self.access_key = access_key
         self.region = region
-        self.host = host
         self.scheme = scheme
-        self.url = f'{scheme}://' + self.host
+        self.url = f'{scheme}://' + host
+        # The Host header has to be signed exactly as it goes on the wire, and the HTTP
+        # client lower-cases the host name and omits the default port of the scheme
+        self.host = httpx.URL(self.url).netloc.decode('ascii')
         self._client = httpx.AsyncClient(
             timeout=None, event_hooks={'response': [_raise_for_status_hook]}
         )
